@@ -151,3 +151,13 @@ From NGO Require Import Syntax.Ast Model.Cleanup Link.CleanupSpec.
 Theorem C07_passthrough_cleanup : forall (inputs : list pred) (prg out : list stmt), execute_core inputs prg = Ok out -> filter non_rule out = filter non_rule prg.
 Proof. exact (@passthrough_cleanup_proof). Qed.
 Print Assumptions C07_passthrough_cleanup.
+
+From NGO Require Import Syntax.Ast Model.Projection Link.ProjectionSpec.
+
+Theorem C07_projection_passthrough : forall (ctor_prg : list stmt) (ins : list pred) (prg out : list stmt), execute_core ctor_prg ins prg = Ok out -> filter non_rule out = filter non_rule prg /\ Datatypes.length prg <= Datatypes.length out /\ (exists (blks : list (list stmt)) (auxs : list pred) (st' : Globals.unames), exec_trace (Globals.init_names ctor_prg ins) prg blks auxs st' /\ out = List.concat blks /\ Datatypes.length out = Datatypes.length prg + Datatypes.length auxs /\ Forall2 (fun (s : stmt) (blk : list stmt) => blk = s :: nil \/ (exists (line : nat) (h : head) (b new rest : list bodyelem) (t : list string) (a : string), s = SRule line h b /\ blk = SRule LOC_line (HLit (aux_head a t)) new :: SRule line h (rest ++ BLit (aux_head a t) :: nil) :: nil)) prg blks).
+Proof. exact (@execute_core_passthrough_proof). Qed.
+Print Assumptions C07_projection_passthrough.
+
+Theorem C07_projection_fresh_aux : forall (ctor_prg : list stmt) (ins : list pred) (prg out : list stmt) (st' : Globals.unames), execute_core_state ctor_prg ins prg = Ok (out, st') -> exists (blks : list (list stmt)) (auxs : list pred), exec_trace (Globals.init_names ctor_prg ins) prg blks auxs st' /\ out = List.concat blks /\ NoDup auxs /\ (forall p : pred, In p auxs -> ~ In p (Globals.known (Globals.init_names ctor_prg ins)) /\ ~ In p ins /\ (forall s : stmt, In s ctor_prg -> ~ In p (map snd (Traverse.predicates Traverse.all_signs s))) /\ (exists k : nat, fst p = (Names.AUX_FUNC ++ Globals.string_of_nat k)%string)) /\ incl auxs (Globals.known st').
+Proof. exact (@execute_core_fresh_aux_proof). Qed.
+Print Assumptions C07_projection_fresh_aux.
